@@ -251,6 +251,9 @@ def explore_instant(shape, cancel_at, bound, res, only_choices=None):
                 res.count('executions_with_overlapping_mutating_jobs')
             res.maxi('after_cancel_steps', len(menus))
             res.distinct('schedules', (shape, cancel_at, tuple(taken)))
+            if cancel_at % 37 == 5 and any(taken):
+                res.sample({'shape': shape, 'cancel_at_step': cancel_at,
+                            'after_cancel_choices': list(taken), 'overlap': ex.overlap}, cap=2)
         finally:
             ex.close()
         for field, detail in failures[:1]:
